@@ -350,6 +350,17 @@ def c127(ctx):
             ctx.check(R, f, "failure-recorded", q is None, "a failed %s sets the failure flag before the error is returned" % P.short(callee_skey(P.term_at(f, pt))),
                       "%s can return the error of a failed write without recording it in the builder" % f.skey, pt=pt)
     ctx.floor(R, "LogBuilder: writes to the output", n, 2)
+    # a frame is written piece by piece through LogBuilder::write: once a piece is out, nothing may refuse the next one without marking the
+    # builder -- every error exit of the piece writer passes a store of the failure flag (size and rollover gates sit in _append, before
+    # the first piece)
+    w = ctx.fn(R, LOG + "LogBuilder::write")
+    if w and flags:
+        ws = [x for fl in flags for x in P.field_writes(w, LB, fl)]
+        for e in P.error_points(w):
+            q = P.reach(w, P.ENTRY, [e], avoid=set(ws))
+            ctx.check(R, w, "no-refusal-between-pieces", q is None, "every error exit of the piece writer marks the builder as failed",
+                      "LogBuilder::write can refuse a piece of a frame (an error that is not a recorded write failure): the pieces already written -- a "
+                      "FIRST frame, padding, a SECOND header -- stay in the log, and later batches are acknowledged behind them", pt=e, path=q)
 
 
 def c125(ctx):
